@@ -81,11 +81,11 @@ partial def explore (p : Prog) (modeB : Bool) (maxStates segFuel : Nat) (w : Wor
   else if !live then st.add "deadlock"      -- the main thread never returned and nothing is left to run
   else st
 
-def exploreCall (p : Prog) (maxStates segFuel : Nat) (fn : String) (args : List Val) : ExpState :=
+def exploreCall (p : Prog) (maxStates segFuel : Nat) (fn : String) (args : List Val) (strict : Bool := false) : ExpState :=
   let call : Ctl := if args.isEmpty then .eval (.app (.gvar fn) [.lit .unit]) [] else .eval (.gvar fn) []
   let k : List Frame := if args.isEmpty then [] else [.funK args]
-  let a := explore p false maxStates segFuel {} #[some { ctl := call, k := k }] {}
-  let b := explore p true maxStates segFuel {} #[some { ctl := call, k := k }] {}
+  let a := explore p false maxStates segFuel { strictCond := strict } #[some { ctl := call, k := k }] {}
+  let b := explore p true maxStates segFuel { strictCond := strict } #[some { ctl := call, k := k }] {}
   { a with outcomes := b.outcomes.foldl (fun acc o => if acc.contains o then acc else o :: acc) a.outcomes,
            states := a.states + b.states, truncated := a.truncated || b.truncated }
 
